@@ -2,7 +2,7 @@
    Route: closure_spec  ->  "a state (b, h) is reachable  <->  an open walk from X ends in b with arrival mark h"
           (sep_reach_walk);  open walk <-> m-connecting path by Graph/Walks.open_walk_to_path. *)
 From Coq Require Import List Arith Bool Lia.
-From PG Require Import Base.ListSet Base.Closure Graph.MGraph Graph.MSep Graph.MSepDec Graph.Walks C01.Model C01.Spec.
+From PG Require Import Base.ListSet Base.Closure Graph.MGraph Graph.MSep Graph.MSepDec Graph.Walks C01.Model C01.Spec C01.Run.
 Import ListNotations.
 
 (* ------------------------------------------------------------------ one transition = one admissible step *)
@@ -243,4 +243,27 @@ Proof. intros H. apply acyclicb_false in H. unfold msep_model. rewrite H. reflex
 Theorem msep_guard_iff g X Y Z : msep_model g X Y Z = None <-> exists v, dpl g v v.
 Proof.
   rewrite <- acyclicb_false. unfold msep_model. destruct (acyclicb g); split; intros H; congruence.
+Qed.
+
+(* ------------------------------------------------------------------ the theorem in the boolean form the harness measures *)
+(* Run.class_flags / Run.query_ok are emitted by the extracted driver for every generated case; when they are all true
+   (the harness requires it) the case lies in the domain of msep_correct, and the model answer is the m-separation fact *)
+Theorem msep_correct_b g X Y Z :
+  acyclicb g = true -> ancestral_undb g = true -> query_ok g X Y Z = true ->
+  (msep_model g X Y Z = Some true <-> msep g X Y Z) /\
+  (msep_model g X Y Z = Some false <-> exists x y p, In x X /\ In y Y /\ mconn g Z x p y) /\
+  msep_model g X Y Z = Some (msep_dec g X Y Z) /\
+  msep_model g X Y Z = msep_model g Y X Z.
+Proof.
+  intros Hacy Hanc Hq. unfold query_ok in Hq. rewrite !andb_true_iff in Hq.
+  destruct Hq as [[[[[HX HY] HZ] HXY] HXZ] HYZ].
+  apply subsetb_incl in HX, HY, HZ.
+  pose proof (proj1 (disjointb_spec X Y) HXY) as DXY.
+  pose proof (proj1 (disjointb_spec X Z) HXZ) as DXZ.
+  pose proof (proj1 (disjointb_spec Y Z) HYZ) as DYZ.
+  assert (HA : U g = [] \/ ancestral_und g). { right. apply ancestral_undb_spec. exact Hanc. }
+  split; [apply msep_correct; assumption|].
+  split; [apply msep_correct_false; assumption|].
+  split; [apply msep_model_dec; assumption|].
+  apply msep_symmetric; assumption.
 Qed.
